@@ -32,14 +32,18 @@ Definition c10_scg_field_ok (f : rfield) : Prop :=
 Definition c10_scg_variant_dom (v : rvariant) : Prop :=
   nm (original (vid (variant_shared v))) /\
   match v with VUnit _ => True | VTuple t _ => c10_sc_rtype_kw t = false | VAnon fs _ => Forall c10_scg_field_ok fs end.
-(* no declared name is a reserved word; the content key of a tagged enum is printed as a parameter name *)
+(* no declared name is a reserved word; the content key of a tagged enum is printed as the parameter name of every variant
+   that carries a payload *)
 Definition c10_scg_item_ok (it : ritem) : Prop :=
   match it with
   | ItStruct s => nm (renamed (sid s)) /\ Forall nm (sgenerics s) /\ Forall c10_scg_field_ok (sfields s)
   | ItEnum e =>
     let sh := enum_shared e in
     nm (renamed (eid sh)) /\ nm (original (eid sh)) /\ Forall nm (egenerics sh) /\ Forall c10_scg_variant_dom (evariants sh) /\
-    match e with EUnit _ => True | EAlgebraic _ content _ => gname content end
+    match e with
+    | EUnit _ => True
+    | EAlgebraic _ content sh' => Forall (fun v => match v with VUnit _ => True | _ => gname content end) (evariants sh')
+    end
   | ItAlias a => nm (original (aid a)) /\ Forall nm (agenerics a) /\ c10_sc_rtype_kw (atype a) = false
   | ItConst _ => True
   end.
@@ -212,8 +216,9 @@ Proof.
            split; [exact (docs_line_ok _ Hvd)|]. split; [exact (gname_ident _ Hvo Gvo)|]. split; [exact (gname_ident _ Hren Gren)|].
            split; [constructor|]. split; [exact (key_chars _ Hvr)|exact I].
         -- apply Proofs.C10Lex.forallb_Forall in Hv. rewrite Forall_forall in *. intros v Hin. split; auto.
-      * eapply (mapM_Forall_in _ (fun v => c10_variant_ok CSC v = true /\ c10_scg_variant_dom v)); [| |exact Hvs].
-        -- intros v y [Hv0 [Gvo Gp]] Hy. unfold sc_variant_of_algebraic in Hy. apply bind_ok in Hy as (payload & Hpay & Hy). injection Hy as <-.
+      * eapply (mapM_Forall_in _ (fun v => c10_variant_ok CSC v = true /\ c10_scg_variant_dom v /\
+                                             match v with VUnit _ => True | _ => gname content end)); [| |exact Hvs].
+        -- intros v y (Hv0 & [Gvo Gp] & Gcv) Hy. unfold sc_variant_of_algebraic in Hy. apply bind_ok in Hy as (payload & Hpay & Hy). injection Hy as <-.
            unfold c10_variant_ok in Hv0. rewrite !andb_true_iff in Hv0. destruct Hv0 as [[Hvid Hvd] Hp].
            unfold c10_member_id_ok in Hvid. apply andb_true_iff in Hvid as [Hvo Hvr].
            unfold c10_scg_variant_ok. cbn [scv_docs scv_name scv_parent scv_parent_generics scv_wire scv_payload].
@@ -222,10 +227,10 @@ Proof.
            split; [exact Ggn|]. split; [exact (key_chars _ Hvr)|].
            destruct v as [vsh | t vsh | fs vsh]; cbn [variant_shared] in *.
            ++ injection Hpay as <-. exact I.
-           ++ apply bind_ok in Hpay as (ty & Hty & Hpay). injection Hpay as <-. split; [exact Ggn|]. split; [exact Gc|].
+           ++ apply bind_ok in Hpay as (ty & Hty & Hpay). injection Hpay as <-. split; [exact Ggn|]. split; [exact Gcv|].
               exact (sc_texp_gram _ _ Hp Gp _ Hty).
-           ++ injection Hpay as <-. split; [exact Ggn|]. split; [exact Gc|]. split; [apply inner_gname; assumption|apply anon_generics_gname, Ggn].
-        -- apply Proofs.C10Lex.forallb_Forall in Hv. rewrite Forall_forall in *. intros v Hin. split; auto.
+           ++ injection Hpay as <-. split; [exact Ggn|]. split; [exact Gcv|]. split; [apply inner_gname; assumption|apply anon_generics_gname, Ggn].
+        -- apply Proofs.C10Lex.forallb_Forall in Hv. rewrite Forall_forall in *. intros v Hin. split; [auto|]. split; [auto|exact (Gc v Hin)].
   - cbn [c10_item_ok] in Hit. rewrite !andb_true_iff in Hit. destruct Hit as [[[[Hid Hg] Ht] Hd] _].
     unfold c10_type_id_ok in Hid. apply andb_true_iff in Hid as [Horig _]. destruct Git as (Gn & Gg & Gt).
     apply bind_ok in H as (ty & Hty & H). injection H as <-. split; [discriminate|]. constructor; [|constructor]. split; [|reflexivity].
@@ -703,7 +708,8 @@ Proof.
   - split; [reflexivity|]. split; [constructor|constructor].
   - split; [reflexivity|]. split; [reflexivity|]. split; [constructor|]. split; [|exact I].
     repeat (apply Forall_cons); try apply Forall_nil; split; try reflexivity; exact I.
-  - split; [reflexivity|]. split; [reflexivity|]. split; [repeat constructor|]. split; [|apply gname_lit; reflexivity].
+  - split; [reflexivity|]. split; [reflexivity|]. split; [repeat constructor|].
+    split; [|repeat (apply Forall_cons); try apply Forall_nil; try exact I; apply gname_lit; reflexivity].
     repeat (apply Forall_cons); try apply Forall_nil; split; try reflexivity; try exact I.
     repeat (apply Forall_cons); try apply Forall_nil;
       (apply Hf; [vm_compute; reflexivity|vm_compute; reflexivity|vm_compute; reflexivity|vm_compute; try discriminate; reflexivity]).
@@ -796,3 +802,157 @@ Lemma scala_default_rejected :
     known_C10_sc_grammar (sc_package g_cfg) d_prog = [] /\
     sc_generate uc_exec g_cfg d_prog = Ok text /\ contains_sub (lit "x: String = _") text = true /\ c10_sc_recognise text = None.
 Proof. eexists. repeat split; vm_compute; reflexivity. Qed.
+
+Definition c_prog : parsed :=
+  {| p_structs := [];
+     p_enums := [EAlgebraic (lit "t") (lit "my-content")
+                   {| eid := g_id "E"; egenerics := []; ecomments := [];
+                      evariants := [VTuple (RPrim PString) {| vid := g_id "A"; vcomments := [] |}];
+                      edecs := []; erecursive := false; eredacted := false |}];
+     p_aliases := []; p_consts := []; p_type_names := []; p_errors := []; p_imports := [] |}.
+
+Lemma scala_content_key_refuted :
+  exists text, dom_C10 CSC c_prog = true /\ known_C10 CSC (sc_package g_cfg) c_prog = [] /\
+    known_C10_sc_grammar (sc_package g_cfg) c_prog = ["C10-scala-content-key"%string] /\
+    sc_generate uc_exec g_cfg c_prog = Ok text /\ contains_sub (lit "case class A(my-content: String) extends E {") text = true /\
+    good_C10_lex CSC text = true /\ c10_sc_recognise text = None.
+Proof. eexists. repeat split; vm_compute; reflexivity. Qed.
+
+(* ------------------------------------------------------------------ the domain in terms of the recorded finding classes *)
+(* what is left to assume besides "in no finding class": every Scala type override is a type of the grammar *)
+Definition c10_scg_overrides_ok (pd : parsed) : Prop :=
+  Forall (fun f => forall o, type_override f Scala = Some o -> TyText o) (c10_all_fields pd).
+
+Lemma existsb_false_forall {A} (p : A -> bool) l : existsb p l = false -> forall x, In x l -> p x = false.
+Proof.
+  intros H x Hx. destruct (p x) eqn:E; [|reflexivity]. assert (existsb p l = true) by (apply existsb_exists; eauto). congruence.
+Qed.
+Lemma existsb_false_Forall {A} (p : A -> bool) l : existsb p l = false -> Forall (fun x => p x = false) l.
+Proof. intros H. apply Forall_forall. exact (existsb_false_forall p l H). Qed.
+Lemma existsb_flat_map {A B} (p : B -> bool) (f : A -> list B) l : existsb p (flat_map f l) = existsb (fun x => existsb p (f x)) l.
+Proof. induction l as [|x l IH]; [reflexivity|]. cbn [flat_map existsb]. rewrite existsb_app, IH. reflexivity. Qed.
+Lemma existsb_map_ {A B} (p : B -> bool) (f : A -> B) l : existsb p (map f l) = existsb (fun x => p (f x)) l.
+Proof. induction l as [|x l IH]; [reflexivity|]. cbn [map existsb]. rewrite IH. reflexivity. Qed.
+Lemma existsb_ext_ {A} (p q : A -> bool) l : (forall x, p x = q x) -> existsb p l = existsb q l.
+Proof. intros H. induction l as [|x l IH]; [reflexivity|]. cbn [existsb]. rewrite H, IH. reflexivity. Qed.
+
+Lemma contains_unsigned_eq t : sc_contains_unsigned t = c10_sc_unsigned_in t.
+Proof.
+  induction t as [id | id ps IH | t IH | t n IH | t IH | k v IHk IHv | t IH | p] using rtype_ind'; cbn [sc_contains_unsigned c10_sc_unsigned_in]; try assumption; try reflexivity.
+  - induction IH as [|x l Hx _ IHl]; [reflexivity|]. cbn [existsb]. rewrite Hx, IHl. reflexivity.
+  - rewrite IHk, IHv. reflexivity.
+Qed.
+
+Lemma unsigned_used_eq pd : sc_unsigned_integer_used pd = c10_sc_any_unsigned pd.
+Proof.
+  unfold sc_unsigned_integer_used, c10_sc_any_unsigned. cbv zeta. rewrite !existsb_app.
+  rewrite (existsb_map_ sc_contains_unsigned atype), (existsb_map_ sc_contains_unsigned fty). rewrite !existsb_flat_map. rewrite orb_assoc.
+  f_equal; [f_equal|].
+  - apply existsb_ext_. intros a. apply contains_unsigned_eq.
+  - apply existsb_ext_. intros s. apply existsb_ext_. intros f. apply contains_unsigned_eq.
+  - apply existsb_ext_. intros e. rewrite existsb_flat_map. apply existsb_ext_. intros [vs | t vs | fs vs].
+    + reflexivity.
+    + cbn [existsb]. rewrite orb_false_r. apply contains_unsigned_eq.
+    + rewrite existsb_map_. apply existsb_ext_. intros f. apply contains_unsigned_eq.
+Qed.
+
+(* a key-shaped name that does not start with a digit is identifier-shaped once its dashes are replaced *)
+Lemma key_sc_ident k : c10_key_ok k = true -> c10_digit_first k = false -> c10_sc_ident_ok (replace_char ch_dash ch_us k) = true.
+Proof.
+  destruct k as [|c r]; [discriminate|]. unfold c10_key_ok, c10_digit_first, replace_char. cbn [forallb map c10_sc_ident_ok].
+  rewrite andb_true_iff. intros [Hc Hr] Hd. apply andb_true_iff. split.
+  - unfold c10_key_char, c10_sc_letter, is_aalpha, is_alower, is_aupper, is_adigit, ch_us, ch_dash in *. destruct (c =? 45) eqn:E; lia.
+  - rewrite forallb_forall in *. intros x Hx. apply in_map_iff in Hx as (y & <- & Hy). specialize (Hr y Hy).
+    unfold c10_key_char, c10_sc_id_char, c10_sc_letter, is_aalpha, is_alower, is_aupper, is_adigit, ch_us, ch_dash in *. destruct (y =? 45) eqn:E; lia.
+Qed.
+
+Lemma cls_nil (b : bool) s l : (if b then [s] else []) ++ l = @nil string -> b = false /\ l = [].
+Proof. destruct b; [discriminate|]. intros H. split; [reflexivity|exact H]. Qed.
+
+Lemma cls_nil1 (b : bool) (s : string) : (if b then [s] else []) = @nil string -> b = false.
+Proof. destruct b; [discriminate|reflexivity]. Qed.
+
+Lemma ident_shape_eq s : c10_sc_ident_shape s = c10_sc_ident_ok s.
+Proof. reflexivity. Qed.
+
+Theorem classes_dom cfg pd :
+  dom_C10 CSC pd = true -> known_C10 CSC (sc_package cfg) pd = [] -> known_C10_sc_grammar (sc_package cfg) pd = [] -> c10_scg_overrides_ok pd ->
+  c10_scg_dom pd /\ c10_scg_toplevel_ok cfg pd.
+Proof.
+  intros Hdom Hk Hg Hov.
+  cbn [known_C10] in Hk. unfold c10_cls10 in Hk. apply cls_nil in Hk as [Hdef Hk]. apply cls_nil1 in Hk as Hdig.
+  unfold known_C10_sc_grammar in Hg. apply cls_nil in Hg as [Hkw Hg]. apply cls_nil in Hg as [Htop Hg]. apply cls_nil1 in Hg as Hcon.
+  pose proof (existsb_false_forall _ _ Hdef) as Fdef. pose proof (existsb_false_forall _ _ Hdig) as Fdig. unfold c10_scg_overrides_ok in Hov. rewrite Forall_forall in Hov.
+  unfold dom_C10 in Hdom. rewrite !forallb_app in Hdom. rewrite !andb_true_iff in Hdom. destruct Hdom as [Hal [Hst [Hen _]]].
+  unfold c10_sc_kw_class in Hkw. rewrite !orb_false_iff in Hkw. destruct Hkw as [[Kst Ken] Kal].
+  (* one field *)
+  assert (Hfield : forall f, In f (c10_all_fields pd) -> c10_field_ok CSC f = true -> c10_sc_field_kw f = false -> c10_scg_field_ok f).
+  { intros f Hin Hf Kf. unfold c10_sc_field_kw in Kf. apply orb_false_iff in Kf as [K1 K2].
+    unfold c10_field_ok in Hf. rewrite !andb_true_iff in Hf. destruct Hf as [[[Hid _] _] _]. unfold c10_member_id_ok in Hid. apply andb_true_iff in Hid as [_ Hren].
+    split; [split; [apply key_sc_ident; [exact Hren|exact (Fdig f Hin)]|exact K1]|]. split; [exact K2|]. split; [exact (Hov f Hin)|].
+    intros Hd. specialize (Fdef f Hin). cbn beta in Fdef. rewrite Hd in Fdef. cbn [andb] in Fdef. apply negb_false_iff in Fdef. exact Fdef. }
+  split.
+  - unfold c10_scg_dom, items_of. rewrite !Forall_app. split; [|split; [|split]].
+    + apply Forall_forall. intros it Hin. apply in_map_iff in Hin as (a & <- & Ha). cbn [c10_scg_item_ok].
+      pose proof (existsb_false_forall _ _ Kal a Ha) as K. cbn beta in K. rewrite !orb_false_iff in K. destruct K as [[K1 K2] K3].
+      split; [exact K1|]. split; [exact (existsb_false_Forall _ _ K2)|exact K3].
+    + apply Forall_forall. intros it Hin. apply in_map_iff in Hin as (s & <- & Hs). cbn [c10_scg_item_ok].
+      pose proof (existsb_false_forall _ _ Kst s Hs) as K. cbn beta in K. rewrite !orb_false_iff in K. destruct K as [[K1 K2] K3].
+      rewrite forallb_forall in Hst. specialize (Hst (ItStruct s) (in_map ItStruct _ _ Hs)). cbn [c10_item_ok] in Hst. rewrite !andb_true_iff in Hst.
+      destruct Hst as [[[[_ _] Hf] _] _]. rewrite forallb_forall in Hf.
+      split; [exact K1|]. split; [exact (existsb_false_Forall _ _ K2)|]. apply Forall_forall. intros f Hfin. apply Hfield.
+      * unfold c10_all_fields. apply in_or_app. left. apply in_flat_map. exists s. split; assumption.
+      * exact (Hf f Hfin).
+      * exact (existsb_false_forall _ _ K3 f Hfin).
+    + apply Forall_forall. intros it Hin. apply in_map_iff in Hin as (e & <- & He). cbn [c10_scg_item_ok].
+      pose proof (existsb_false_forall _ _ Ken e He) as K. cbn beta zeta in K. rewrite !orb_false_iff in K. destruct K as [[[[K1 K2] K3] K4] K5].
+      rewrite forallb_forall in Hen. specialize (Hen (ItEnum e) (in_map ItEnum _ _ He)). cbn [c10_item_ok] in Hen. rewrite !andb_true_iff in Hen.
+      destruct Hen as [[[[[_ _] _] Hv] _] Htc]. rewrite forallb_forall in Hv.
+      split; [exact K1|]. split; [exact K2|]. split; [exact (existsb_false_Forall _ _ K3)|]. split.
+      * apply Forall_forall. intros v Hvin. pose proof (existsb_false_forall _ _ K5 v Hvin) as Kv. cbn beta in Kv. apply orb_false_iff in Kv as [Kv1 Kv2].
+        split; [exact Kv1|]. destruct v as [vs | t vs | fs vs]; [exact I|exact Kv2|].
+        specialize (Hv _ Hvin). unfold c10_variant_ok in Hv. rewrite !andb_true_iff in Hv. destruct Hv as [_ Hfs]. rewrite forallb_forall in Hfs.
+        apply Forall_forall. intros f Hfin. apply Hfield.
+        -- unfold c10_all_fields. apply in_or_app. right. apply in_flat_map. exists e. split; [exact He|]. apply in_flat_map. exists (VAnon fs vs). split; [exact Hvin|exact Hfin].
+        -- exact (Hfs f Hfin).
+        -- exact (existsb_false_forall _ _ Kv2 f Hfin).
+      * destruct e as [sh | tag content sh]; [exact I|]. cbn [enum_shared] in *.
+        pose proof (existsb_false_forall _ _ Hcon _ He) as Kc. cbn beta in Kc.
+        apply Forall_forall. intros v Hvin. destruct v as [vs | t vs | fs vs]; [exact I| |];
+          (split; [|exact K4]; apply andb_false_iff in Kc as [Kc|Kc]; [apply negb_false_iff in Kc; exact Kc|];
+           pose proof (existsb_false_forall _ _ Kc _ Hvin) as Kv; discriminate).
+    + apply Forall_forall. intros it Hin. apply in_map_iff in Hin as (c & <- & _). exact I.
+  - unfold c10_sc_toplevel_class in Htop. unfold c10_scg_toplevel_ok. apply andb_false_iff in Htop as [Ht|Ht].
+    + left. apply negb_false_iff in Ht. exact Ht.
+    + right. apply orb_false_iff in Ht as [Ha Hu]. split; [destruct (p_aliases pd); [reflexivity|discriminate]|]. rewrite unsigned_used_eq. exact Hu.
+Qed.
+
+(* the whole-file theorem with the grammar domain spelled as "in no recorded finding class" *)
+Theorem sc_generate_recognised_classes uc cfg pd text :
+  Proofs.C10_SC.c10_sc_cfg_ok cfg = true -> c10_scg_cfg_ok cfg -> dom_C10 CSC pd = true ->
+  known_C10 CSC (sc_package cfg) pd = [] -> known_C10_sc_grammar (sc_package cfg) pd = [] -> c10_scg_overrides_ok pd ->
+  sc_generate uc cfg pd = Ok text ->
+  exists n, c10_sc_recognise text = Some n /\ (List.length (p_aliases pd) + List.length (p_structs pd) + List.length (p_enums pd) <= n)%nat.
+Proof.
+  intros Hcfg Gcfg Hdom Hk Hg Hov H. destruct (classes_dom cfg pd Hdom Hk Hg Hov) as [Gdom Gtop].
+  exact (sc_generate_recognised uc cfg pd text Hcfg Gcfg Hdom Gdom Gtop H).
+Qed.
+
+Lemma dom_fields pd : c10_scg_dom pd -> Forall c10_scg_field_ok (c10_all_fields pd).
+Proof.
+  unfold c10_scg_dom, items_of. rewrite !Forall_app. intros (_ & Gst & Gen & _). rewrite Forall_forall in *. intros f Hin.
+  unfold c10_all_fields in Hin. apply in_app_or in Hin as [Hin|Hin].
+  - apply in_flat_map in Hin as (s & Hs & Hf). specialize (Gst (ItStruct s) (in_map ItStruct _ _ Hs)). cbn [c10_scg_item_ok] in Gst.
+    destruct Gst as (_ & _ & G). rewrite Forall_forall in G. exact (G f Hf).
+  - apply in_flat_map in Hin as (e & He & Hf). apply in_flat_map in Hf as (v & Hv & Hf).
+    specialize (Gen (ItEnum e) (in_map ItEnum _ _ He)). cbn [c10_scg_item_ok] in Gen. destruct Gen as (_ & _ & _ & G & _).
+    rewrite Forall_forall in G. specialize (G v Hv). destruct v as [vs | t vs | fs vs]; try (destruct Hf; fail).
+    destruct G as [_ G]. rewrite Forall_forall in G. exact (G f Hf).
+Qed.
+
+Example C10_sc_grammar_classes_nonvacuous :
+  known_C10 CSC (sc_package g_cfg) g_prog = [] /\ known_C10_sc_grammar (sc_package g_cfg) g_prog = [] /\ c10_scg_overrides_ok g_prog.
+Proof.
+  split; [vm_compute; reflexivity|]. split; [vm_compute; reflexivity|].
+  unfold c10_scg_overrides_ok. pose proof (dom_fields g_prog g_dom_ok) as G. revert G. apply Forall_impl. intros f (_ & _ & Ho & _). exact Ho.
+Qed.
